@@ -55,8 +55,11 @@ States == [alphaIdx : -1..N, irIdx : -1..(N + 1), lookup : {"ok", "irErr", "cmEr
 
 Member(st) == st.alphaIdx >= 0
 \* what the Server getters answer
-AlphabetIndex(st) == IF st.lookup = "ok" THEN st.alphaIdx ELSE -1
-InnerRingIndex(st) == IF st.lookup = "ok" THEN st.irIdx ELSE -1
+\* (a state may carry the field `view` = what the indexer answers from its cache, see AlphabetHist.tla;
+\*  without it every query goes to the chain)
+HasView(st) == "view" \in DOMAIN st
+AlphabetIndex(st) == IF HasView(st) THEN st.view.alpha ELSE IF st.lookup = "ok" THEN st.alphaIdx ELSE -1
+InnerRingIndex(st) == IF HasView(st) THEN st.view.ir ELSE IF st.lookup = "ok" THEN st.irIdx ELSE -1
 IsAlphabet(st) == AlphabetIndex(st) >= 0
 \* morph client: alphabet-signed transaction can be produced
 CanSign(st) == ~ClientChecksMembership \/ (st.lookup # "cmErr" /\ Member(st))
